@@ -13,6 +13,7 @@ from pysmi import debug
 
 UNSIGNED32_MAX = 4294967295
 UNSIGNED64_MAX = 18446744073709551615
+SIGNED64_MIN = -9223372036854775808
 LEX_VERSION = [int(x) for x in lex.__version__.split('.')]
 
 # Do not overload single lexer methods - overload all or none of them!
@@ -242,7 +243,7 @@ class SmiV2Lexer(AbstractLexer):
             if neg:
                 t.type = 'NEGATIVENUMBER'
 
-        elif val <= UNSIGNED64_MAX:
+        elif val <= UNSIGNED64_MAX and t.value >= SIGNED64_MIN:
             if neg:
                 t.type = 'NEGATIVENUMBER64'
             else:
